@@ -259,10 +259,10 @@ def decide(prop, tier, seed, work, evid_path, a, t_start):
                 inconclusive.append(msg)
             continue
         fails, vac, ok, wit = classify(r)
-        if vac:
+        if vac and not fails:
             broken.append('%s:%s vacuous: witness proved unreachable: %s' % (hb.name, e['name'], [p['desc'] for p in vac]))
             continue
-        if wit == 0:
+        if wit == 0 and not fails:
             broken.append('%s:%s has no reachability witness' % (hb.name, e['name']))
             continue
         witnesses += wit
